@@ -409,12 +409,75 @@ fn later_block_fails_group_guard(case: &mut Case) {
     }
 }
 
+/// `construct!([construct!(KEY, VAL ..), N]).optional()` followed by `REST.many()`: a line with
+/// fewer words than the first alternative needs, the first of them not a number. The word is
+/// there for `N` and does not convert: the run fails, the default of the wrapper is for a line
+/// that has no word at all
+fn choice_of_words_under_default(case: &mut Case) {
+    let mut rng = case.rng(7);
+    let pos = |id: Id, ty: Ty| {
+        Spec::Item(Item {
+            id,
+            names: Names::default(),
+            help: None,
+            leaf: Leaf::Pos {
+                ty,
+                metavar: format!("M{}", id),
+                strict: Strict::Any,
+            },
+        })
+    };
+    let need = rng.range(2, 3);
+    let words: Vec<Spec> = (0..need).map(|k| pos(1 + k as Id, Ty::Str)).collect();
+    let mut branches = vec![Spec::Seq(words), pos(10, Ty::U32)];
+    if rng.chance(1, 2) {
+        branches.swap(0, 1);
+    }
+    let w = match rng.below(3) {
+        0 => W::Optional { catch: false },
+        1 => W::Fallback,
+        _ => W::FallbackWithOk,
+    };
+    let root = Spec::Seq(vec![
+        Spec::wrap(w, 20, Spec::Alt(branches)),
+        Spec::wrap(W::Many { catch: false }, 21, pos(11, Ty::Str)),
+    ]);
+    let b = Bench::new(case, OptSpec::plain(root));
+    let given = rng.range(1, need - 1);
+    let argv: Vec<Vec<u8>> = (0..given).map(|k| format!("word{}", k).into_bytes()).collect();
+    let class = "invalid:word-for-a-number:choice-of-words-under-default";
+    let (out, _) = b.run(case, &argv, class);
+    match &out {
+        Outcome::Stderr { .. } => case.rep.count("message-present"),
+        Outcome::Panic(_) | Outcome::FuelExhausted => {}
+        other => case.rep.violation(
+            &format!(
+                "invalid-value-masked:choice-of-words-under-default:{}",
+                other.class()
+            ),
+            "masking",
+            case.index,
+            b.detail(&argv, class, "Stderr (the word does not convert)", &out),
+        ),
+    }
+    // the same definition on an empty line: the default
+    let (out, _) = b.run(case, &[], "absent:choice-of-words-under-default");
+    if !matches!(out, Outcome::Value(_) | Outcome::Panic(_) | Outcome::FuelExhausted) {
+        case.rep.violation(
+            "absent-not-defaulted:choice-of-words-under-default",
+            "absence",
+            case.index,
+            b.detail(&[], "absent:choice-of-words-under-default", "a value", &out),
+        );
+    }
+}
+
 pub fn run_case(case: &mut Case) {
     if case.index % 16 == 7 {
-        if (case.index / 16) % 2 == 0 {
-            adjacent_command_defaulted_word(case);
-        } else {
-            later_block_fails_group_guard(case);
+        match (case.index / 16) % 3 {
+            0 => adjacent_command_defaulted_word(case),
+            1 => later_block_fails_group_guard(case),
+            _ => choice_of_words_under_default(case),
         }
         return;
     }
